@@ -265,6 +265,19 @@ def gen_atten(tier, rng):
             c = mk(xs, ts, check, st, ft, tp, mo, mp)
             c["unit_ns"] = unit
             cases.append(c)
+    # large whole numbers (raw counts: +-20000 fits int16, +-100 fits int8) whose RANGE does not fit the narrow type
+    for _ in range(60 if tier == "quick" else 600):
+        big = rng.choice([20000, 100, 30000, 120])
+        n = rng.randint(3, 7)
+        xs = [F(rng.choice([-big, big, 5, 10, 0, -big + 1, big - 3])) for _ in range(n)]
+        ts = list(range(n))
+        tp = rng.choice([None, None, 2, 3])
+        check = rng.choice(["range", "range", "std"])
+        sp = spreads(xs, ts, check, tp)
+        for st, ft in threshold_pairs(check, sp, rng, 1):
+            c = mk(xs, ts, check, st, ft, tp, None, None)
+            c["wide"] = True
+            cases.append(c)
     # decimal sub-second steps (10 Hz, 5 Hz, 0.3 s): the step is not a binary fraction, so the code's float quotient
     # min_period / step is only kept where true division followed by truncation gives the exact count (checked
     # here in the same float arithmetic) - there the property fixes the count, and a different float recipe
